@@ -12,7 +12,13 @@ The real code is then run through the entry points of the property
  (iii) the property itself on the real code, independent of Lean: same structure, names and
        values; every variable name is one `Parameter` object; after changing every variable *once
        per name* on both sides the matrices are equal; states/distributions equal within the 1e-6
-       text grid; experiments keep filter (0 included), heralds, ports, detectors, noise, input, ps.
+       text grid; experiments keep filter (0 included), heralds, ports (first-mode tables, per-mode
+       `get_input_port` / `get_output_port` tables, `in_port_names` / `out_port_names`), detectors, noise,
+       input, post-selection (`==`, text and truth table on states chosen from its conditions).
+
+Ports of an experiment are generated as a history of declarations over Port OBJECTS (`gen_ports`): the same object
+may be declared at the input and at the output on different modes, two objects may cross, an IN_OUT port may lose
+its output side to a component added with `keep_port=False` and be declared again elsewhere.
 
 Feed-forward configurators (FFCircuitProvider / FFConfigurator) are generated stand-alone, in containers,
 nested in the experiments a provider holds, and inside experiments (where `Experiment.add` freezes their
@@ -2694,6 +2700,10 @@ def judge_psx(chk, spec, tmpdir, stats=False):
                 chk.branch("ps-" + PS_FEATURE_BRANCHES[k])
         if st.get("keyword-text"):
             chk.branch("ps-keyword-spelling")
+        if st.get("writer-model-payload"):
+            chk.branch("ps-writer-model")
+        if st.get("writer-model-text"):
+            chk.branch("ps-writer-model-private-function")       # not required: a private name may change
         for k in f:
             chk.count("postselect_shape", k)
         if res is None:
@@ -2908,8 +2918,11 @@ def run(chk: core.Check):
                 "heralds, noise models, numeric and symbolic matrices, basic states with annotations, state vectors, "
                 "the three distributions, sample lists (their texts compared character by character with "
                 "Model/C15Text.lean, plus respelled / damaged variants of every text for the readers), post-selection "
-                "expressions generated as syntax trees (all comparators and operators, negations in every position, "
-                "nesting; Model/C15PS.lean), dict/list trees nested to depth 4 with string and object keys, every "
+                "expressions generated as syntax trees (all comparators and operators, negations of single conditions "
+                "and of groups in every position, nesting, values and mode indices of one to ten digits, keyword "
+                "spellings; Model/C15PS.lean, the regex pass of the writer Model/C15PSW.lean), also inside experiments, "
+                "containers and files; experiments whose ports are histories over Port objects (one object on both sides "
+                "at different modes, swaps, re-routing by a component, widths 1/2/4, mixed with heralds); dict/list trees nested to depth 4 with string and object keys, every "
                 "kind of passthrough value and every form of the compress argument (Model/C15Tree.lean), 32-bit float "
                 "conversion of doubles of 14 classes (Model/C15F32.lean); feed-forward circuit "
                 "providers (histories of add_configuration / block_circuit_size calls, circuits and experiments of "
@@ -2956,7 +2969,7 @@ def run(chk: core.Check):
                              "ps-negated-single", "ps-negated-single-multidigit", "ps-negated-single-multidigit-not-last",
                              "ps-negated-single-mode-multidigit", "ps-negated-group", "ps-negated-group-multidigit",
                              "ps-double-negation", "ps-value-multidigit", "ps-value-max", "ps-mode-multidigit",
-                             "ps-mode-list-multidigit", "ps-keyword-spelling",
+                             "ps-mode-list-multidigit", "ps-keyword-spelling", "ps-writer-model",
                              "ps-in-experiment", "ps-in-experiment-negated-single",
                              "ps-in-experiment-negated-single-multidigit", "ps-in-experiment-negated-group",
                              "ps-in-object", "ps-in-object-negated-single-multidigit", "ps-in-object-negated-group",
